@@ -173,4 +173,37 @@ PROPS = {
                    'two instances x four descriptor kinds, plus seeded longer ones) are compared with the model through weak references (partial).',
         level_note=NOTE + 'the garbage collector, weakref.',
     ),
+    'C05': dict(
+        title='discovery is sound', proj='proj_full', oracle='c05',
+        quick=[S_('bind'), S_('visitor_adv', nc=4), S_('visitor_corpus', star_only=True), S_('programs', count=3000),
+               S_('progexec', count=3000, ops=('progexec',)), S_('probes_c05', nc=1)],
+        thorough=[S_('bind'), S_('visitor_adv', nc=4), S_('visitor_corpus'), S_('programs', count=60000),
+                  S_('progexec', count=60000, ops=('progexec',)), S_('probes_c05', nc=1)],
+        runtime_part='name resolution through real globals / closures / attributes / bound arguments, decorator plumbing, execution of the generated wrappers',
+        level_text='The AST walker is modelled on a generic tree covering every Python node type; that it is total and that, on every program of an inductively defined forwarding grammar '
+                   '(unbounded length and nesting), it reports a star as forwarded only when it is pristine at the call (visitor = ground truth) are theorems; soundness of the reported signature '
+                   'then follows from the forwards/merge theorems. Ties to /repo: the Lean walker vs the real CallListerVisitor on the AST of every star-taking corpus function and of generated '
+                   'programs; the whole discovery (parameters + provenance) vs the model; generated wrappers are really executed on all non-colliding shapes (partial: two recorded findings D19, D23).',
+        level_note=NOTE + 'runtime name resolution, execution; ' + BINDER + '.',
+    ),
+    'C06': dict(
+        title='discovery = declaration; invariance', proj='proj_full', oracle='c06',
+        quick=[S_('programs', count=3000), S_('progexec', count=3000, ops=('declared', 'variants')), S_('visitor_adv', nc=4)],
+        thorough=[S_('programs', count=60000), S_('progexec', count=60000, ops=('declared', 'variants')), S_('visitor_adv', nc=4)],
+        runtime_part='the modifiers hint protocol, functools.wraps-only decorators, real name resolution',
+        level_text='visitor = ground truth on the forwarding grammar and hence discovery = explicit declaration (computed from the ground truth with the algebra) are theorems about the model, as is '
+                   'invariance under decoy calls / unrelated statements / assignment targets; on the real code every generated wrapper is compared with the declaration computed through the public '
+                   'algebra from the generator\'s own ground truth (parameters and provenance), and with source-level variants (statement context, comprehension, decorators that only wrap).',
+        level_note=NOTE + 'runtime name resolution, decorator plumbing.',
+    ),
+    'C07': dict(
+        title='retrieval is total and only narrows', proj='proj_full', oracle='c07',
+        quick=[S_('visitor_corpus', limit=4000), S_('visitor_adv', nc=4), S_('retrieve')],
+        thorough=[S_('visitor_corpus'), S_('visitor_adv', nc=4), S_('retrieve')],
+        runtime_part='what inspect, getsource, ast.parse, getattr and Sphinx raise on real objects (validated over the corpus, not proved)',
+        level_text='Totality of the AST walker on arbitrary trees (theorem visitor_total: the deferred-call queue always drains) and of the fallback chain of the model; the real retrieval is run over every '
+                   'star-taking function and a seeded sample (thorough: all) of the ~2*10^4 callables of the importable standard library and installed packages plus adversarial sources, comparing the '
+                   'outcome class with inspect.signature, checking that plain functions are only narrowed, and that the Sphinx hook returns two strings (partial).',
+        level_note=NOTE + 'inspect / ast / getattr / Sphinx behaviour on real objects.',
+    ),
 }
